@@ -55,7 +55,7 @@ CT_INITS = [
 ]
 
 PO_OPS_Q = [
-    ("filters", "F1"), ("filters", "F2"), ("filters", "F3"), ("filters", "F4"), ("filters", "F0"), ("filters", "Fbad"),
+    ("filters", "F1"), ("filters", "F2"), ("filters", "F3"), ("filters", "F4"), ("filters", "F6"), ("filters", "F7"), ("filters", "F0"), ("filters", "Fbad"),
     ("min_bins_per_window", "mb1"), ("min_bins_per_window", "mb10"), ("min_bins_per_window", "mb0"),
     ("name", "na"), ("name", "nb"),
 ]
@@ -95,7 +95,8 @@ ALPHABET = {
         "W4": "three arrays, unordered and overlapping", "Wempty": "()", "Wnonmono/Wshort/Wbad2nd/Wflat/W2d": "rejected by the constructor",
         "CT": "order {1,2}, grating {1.2e-3,5e-4}, focal {1e9,7.5e8}, spacing {2e4,1.3e4}, angle {10,20}; A1 one spectrum, A2 two, A3 three unordered, A4 list with float pixel count; 0/negative values rejected",
         "F1": "[Trapezoidal 656.1/3/1]", "F2": "(two overlapping trapezoids) tuple", "F3": "[Trapezoidal flat_top=window]",
-        "F4": "[PolychromatorFilter unsorted non-zero ends, Trapezoidal]", "F5": "three filters incl. a repeated one", "F0": "[]", "Fbad": "[filter, 'str']",
+        "F4": "[PolychromatorFilter unsorted non-zero ends, Trapezoidal]", "F5": "three filters incl. a repeated one", "F6": "[broad band 630-670, line filter 656.1/3 inside it with the outermost centre]",
+        "F7": "(line filter 464.8/3, broad band 455-485 containing it)", "F0": "[]", "Fbad": "[filter, 'str']",
     },
     "observation kinds between ops": {"quick": ["none", "all"], "thorough": ["none", "spectral", "pipeline (not CzernyTurner)", "all"]},
     "calibration": {"bins": L_BINS_T, "ranges": L_RANGES_T, "sample patterns (integers)": L_PATTERNS,
@@ -187,12 +188,15 @@ def setup_worker(tier):
         "flat": TrapezoidalFilter(500., 4.),
         "pf": PolychromatorFilter([658, 654, 656], [0.5, 0.5, 1], name="pf"),
         "wide": TrapezoidalFilter(400., 6., 2., "wide"),
+        # broad bands that contain a line filter whose centre lies further out than the band's own centre
+        "rband": TrapezoidalFilter(650., 40., 10., "red band"),
+        "bband": TrapezoidalFilter(470., 30., 10., "blue band"),
     }
     _W["filters"] = fl
     _W["filter_key"] = {id(f): k for k, f in fl.items()}
     # independent description of the filters: (lower bound, upper bound, window) from the constructor arguments
     _W["filter_model"] = {"Ha": (656.1, 3.), "C3": (464.8, 3.), "C3b": (465.9, 2.), "flat": (500., 4.), "wide": (400., 6.),
-                          "pf": (656., 4.)}
+                          "pf": (656., 4.), "rband": (650., 40.), "bband": (470., 30.)}
     V = {
         "W1": ((500., 501., 502., 503.),),
         "W2": ([400., 400.5, 401., 401.5], [600., 602., 604.]),
@@ -222,6 +226,8 @@ def setup_worker(tier):
         "F3": [fl["flat"]],
         "F4": [fl["pf"], fl["wide"]],
         "F5": [fl["Ha"], fl["C3"], fl["Ha"]],
+        "F6": [fl["rband"], fl["Ha"]],
+        "F7": (fl["C3"], fl["bband"]),
         "F0": [],
         "Fbad": [fl["Ha"], "not a filter"],
     }
